@@ -177,7 +177,8 @@ inductive Err where
   deriving DecidableEq, Repr
 
 /-- `compute_normal` without the final normalisation: `v1 × v_k` (longest centred vector, longest
-    cross product); `RuntimeError` if every component is within `tol·|v1|·|v_k|` of zero. -/
+    cross product); `RuntimeError` if every component is within `tol·|v1|²` of zero (the scaling
+    of the code as repaired in /repo: `nrm_scaling = nrm[v1_ind] ** 2`). -/
 def computeNormal (pts : List P3) (tol : Rat) : Except Err P3 :=
   if pts.length ≤ 2 then .error .value else
   let c := mean3 pts
@@ -189,7 +190,7 @@ def computeNormal (pts : List P3) (tol : Rat) : Except Err P3 :=
     | none => .error .value
     | some vk =>
       let nrm := cross3 v1 vk
-      let bound := tol * tol * nsq3 v1 * nsq3 vk
+      let bound := tol * tol * nsq3 v1 * nsq3 v1
       if decide (0 ≤ tol) && decide (nrm.1 * nrm.1 ≤ bound) && decide (nrm.2.1 * nrm.2.1 ≤ bound)
           && decide (nrm.2.2 * nrm.2.2 ≤ bound) then .error .runtime
       else .ok nrm
